@@ -191,7 +191,21 @@ func init() {
 		k(st, scalar(r))
 	}
 	libSpecs["bytes.NewReader"] = func(e *Engine, st *State, fn *ssa.Function, args []Val, pos token.Pos, k Kont) {
-		k(st, scalar(e.newRef(st)))
+		ref := e.newRef(st)
+		if e.Opts.StreamModel && fn.Name() == "NewReader" {
+			// the reader's stream is the slice's content, nothing consumed yet
+			tb := e.tb
+			b := e.materialiseIfSlice(st, args[0], fn.Signature.Params().At(0).Type())
+			rv := Val{T: []*Term{tb.Int(e.typeTag(fn.Signature.Results().At(0).Type())), ref}}
+			key := readerKey(tb, rv)
+			row := tb.Select(e.H(st, "E:uint8", SArr2I), b.slArr())
+			i := tb.BoundVar("i", SInt)
+			sb := tb.App("stream", SInt, key, i)
+			e.assume(st, tb.Forall([]*Term{i}, tb.Implies(tb.And(tb.Le(tb.Int(0), i), tb.Lt(i, b.slLen())), tb.Eq(sb, tb.Select(row, tb.Add(b.slOff(), i)))), []*Term{sb}))
+			cur := e.ghostArr(st, "rpos", SArrI)
+			e.setGhost(st, "rpos", tb.Store(cur, key, tb.Int(0)))
+		}
+		k(st, scalar(ref))
 	}
 	libSpecs["bytes.NewBuffer"] = libSpecs["bytes.NewReader"]
 	libSpecs["bytes.Repeat"] = func(e *Engine, st *State, fn *ssa.Function, args []Val, pos token.Pos, k Kont) {
